@@ -2,6 +2,7 @@ package main
 
 import (
 	"encoding/json"
+	"sync/atomic"
 	"flag"
 	"fmt"
 	"os"
@@ -157,6 +158,9 @@ func main() {
 			for k := range f.trustedUsed {
 				trusted["abstract/trusted callee contract: "+k] = true
 			}
+			for _, w := range f.waived {
+				trusted["waived obligation (assumed, not proved): "+w] = true
+			}
 			for k := range f.unmodelled {
 				trusted["callee without contract, treated as changing the whole heap: "+k+" (called from "+n+")"] = true
 			}
@@ -191,6 +195,36 @@ func main() {
 	}
 	for _, r := range runs {
 		solveAll(r.prel, r.encs, tmp, timeout, *workers)
+	}
+	// second pass: obligations that timed out under parallel load are retried one at a time
+	{
+		var retry []*Obligation
+		var retryRun []*pkgRun
+		var retryEnc []*FnEnc
+		for _, r := range runs {
+			for _, f := range r.encs {
+				for _, ob := range f.obls {
+					if ob.Result != nil && !ob.Cover && (ob.Result.Status == "timeout" || ob.Result.Status == "unknown") {
+						retry = append(retry, ob)
+						retryRun = append(retryRun, r)
+						retryEnc = append(retryEnc, f)
+					}
+				}
+			}
+		}
+		if len(retry) > 0 && len(retry) <= 16 {
+			for i, ob := range retry {
+				one := &FnEnc{e: retryEnc[i].e, name: retryEnc[i].name, kindN: map[string]int{}}
+				one.out.WriteString(retryEnc[i].out.String())
+				one.obls = []*Obligation{ob}
+				prev := ob.Result
+				atomic.StoreInt32(&nFailed, 0)
+				solveAll(retryRun[i].prel, []*FnEnc{one}, tmp, timeout*2, 1)
+				if ob.Result != nil && ob.Result.Status != "unsat" && ob.Result.Status != "sat" {
+					ob.Result.Tried = append(prev.Tried, ob.Result.Tried...)
+				}
+			}
+		}
 	}
 	// report
 	known := loadKnown(*knownPath)
